@@ -7,15 +7,18 @@ def E(name, src, model=None, quick=None, thorough=None, **kw):
 
 PROPS = {
     "C14": dict(
-        lean_props=["H4.Props.C14"],
+        lean_props=["H4.Props.C14", "H4.Props.C14SD"],
         engines=[
             E("ro", "e_ro.c", model="ro", wrap=True, quick=dict(cases=240, chunk=10), thorough=dict(cases=4000, seeds=4, chunk=50, timeout=1800)),
         ],
         trusted_base=["GNU ld --wrap interposition of fopen/fread/fwrite/fseek/fflush/fclose (harness/wrap.h): a write REQUEST is logged before stdio sees it",
-                      "V/VS/SD/GR/AN layers are not modelled: that they reach the file only through the mutating H operations is checked by engine ro (write log, byte comparison), not proved",
+                      "V/VS/GR/AN layers are not modelled: that they reach the file only through the mutating H operations is checked by engine ro (write log, byte comparison), not proved; the SD layer's metadata requests (SDcreate, SDsetattr, SDsetdimname, SDsetdimscale, SDsetdimstrs, SDsetdatastrs, SDsetcal, SDsetrange, SDsetfillvalue) are modelled by H4.AttrSD (refusal + unchanged state proved in H4.Props.C14SD for ALL arguments, tied by the `sd.*` lines of engine ro); SDwritedata / chunk / compression / external-file requests are checked by the engine's oracles only",
+                      "engine ro describes the SD file to the model from the library's in-memory tables (NC_dim / NC_var / NC_attr through mf_priv.h) after SDstart(DFACC_READ)",
                       "special-element internals (linked-block, external, compressed, chunked) beyond their access checks are not modelled (result `pass`)"],
         assumptions=["the operating system lets the process open the file for update (no OS-level permission failure); DFACC_CREATE opens are outside the property",
-                     "access rights are per FILE RECORD (all file ids of one path share it): read-only = no live Hopen of that path ever asked for DFACC_WRITE"],
+                     "access rights are per FILE RECORD (all file ids of one path share it): read-only = no live Hopen of that path ever asked for DFACC_WRITE",
+                     "write request = a call that, on a writable file, stores or changes something when it succeeds. Rule read off the unchanged library: through a read-only handle every such call FAILs whatever its arguments (stored value again, name in use, zero count ...), except SDwritedata with a zero edge (nothing to store; SUCCEED on writable files too) and SDsetexternalfile on a data set that is external already (documented no-op); calls that only set a parameter of the handle (VSsetfields, VSfdefine, VSappendable, VSsetblocksize, VSsetnumblocks, SDsetblocksize, SDsetchunkcache, GRsetaccesstype, GRreqlutil, GRreqimageil, GRsetchunkcache) are not write requests",
+                     "the scale type SDdiminfo reports is not part of the compared view: it is 0 until the coordinate variable's data has been read once in the session (NCvario raises numrecs on reads)"],
     ),
     "C01": dict(
         lean_props=["H4.Props.C01", "H4.Props.C01Ext"],
